@@ -454,6 +454,95 @@ void case_evil(uint64_t idx, vh::Rng&) {
     if (idx % 60 == 0) vh::sample_str("crafted input: " + e.cls + vh::fmt(" (%zu bytes)", e.bytes.size()));
 }
 
+// ------------------------------------------------------------------ buffer-growth sweep (valid inputs)
+//
+// A tiny first object, then an object whose size is swept in element steps across the capacity
+// of the decoder's output buffer (1 KiB / 4 KiB in the tiny-buffer build, 64 KiB for the PBF
+// decoder of the normal build), followed by one long string: the buffer has to grow (and, for
+// auto_grow::internal, to hand over its committed part) at every possible fill level, and the
+// piece that crosses the boundary is larger than the room that is left. Plus o5m inputs that
+// fill the string reference table (15000 entries) up to and past its wrap-around.
+
+constexpr size_t GROW_CAPS[] = {1024, 4096, 65536};
+struct GrowKind { const char* name; size_t elem; };
+const GrowKind GROW_KINDS[] = {{"way node refs", 16}, {"relation members", 24}, {"tags", 8}};
+const char* const GROW_FMT[] = {"opl", "osm", "pbf"};
+const char* const GROW_OPTS[] = {"opl", "osm", "pbf,pbf_compression=none,pbf_dense_nodes=false"};
+constexpr size_t GROW_SPAN = 760;   // bytes below the capacity where the sweep starts (ends 60 above)
+const size_t GROW_O5M[] = {14998, 14999, 15000, 15001, 15002, 30001};
+
+uint64_t grow_cases() {
+    uint64_t n = 0;
+    for (const auto& k : GROW_KINDS) n += (GROW_SPAN + 60) / k.elem + 1;
+    return n * 3 /*caps*/ * 2 /*string lengths*/ * 3 /*formats*/ + sizeof(GROW_O5M) / sizeof(GROW_O5M[0]);
+}
+
+std::string o5m_table_fill(size_t entries) {
+    std::string o = LIT("\xff\xe0\x04o5m2");
+    for (size_t i = 0; i < entries; ++i) {
+        std::string body = LIT("\x02\x00\x00\x00");   // id +1, no version info, lon +0, lat +0
+        const std::string kv = "k" + std::to_string(i);
+        body += '\0'; body += kv; body += '\0'; body += "v"; body += '\0';      // inline pair: stored in the table
+        o += '\x10'; o += static_cast<char>(body.size()); o += body;
+    }
+    // nodes referring back: most recent entry, the one before, the oldest ones
+    for (unsigned ref : {1U, 2U, 3U, 14999U, 15000U}) {
+        std::string body = LIT("\x02\x00\x00\x00");
+        if (ref < 128) body += static_cast<char>(ref); else { body += static_cast<char>((ref & 0x7f) | 0x80); body += static_cast<char>(ref >> 7); }
+        o += '\x10'; o += static_cast<char>(body.size()); o += body;
+    }
+    o += '\xfe';
+    return o;
+}
+
+void case_grow(uint64_t idx, vh::Rng&) {
+    const size_t no5m = sizeof(GROW_O5M) / sizeof(GROW_O5M[0]);
+    if (idx < no5m) {
+        const std::string cls = vh::fmt("o5m: %zu strings stored in the reference table, then back references", GROW_O5M[idx]);
+        vh::set_case_desc("grow %s", cls.c_str());
+        run_input(o5m_table_fill(GROW_O5M[idx]), "o5m", cls);
+        vh::evaluated(); vh::count("distinct_by_construction"); vh::count("o5m_reference_table_fill_inputs");
+        return;
+    }
+    uint64_t i = idx - no5m;
+    const size_t fmt = i % 3; i /= 3;
+    const size_t L = (i % 2) ? 1000 : 300; i /= 2;
+    const size_t cap = GROW_CAPS[i % 3]; i /= 3;
+    size_t kind = 0;
+    for (; kind < 3; ++kind) { const uint64_t n = (GROW_SPAN + 60) / GROW_KINDS[kind].elem + 1; if (i < n) break; i -= n; }
+    if (kind == 3) return;
+    const size_t target = cap - GROW_SPAN + static_cast<size_t>(i) * GROW_KINDS[kind].elem;   // approximate size of the pending object
+    const size_t n = target / GROW_KINDS[kind].elem;
+    std::vector<mdl::Obj> D;
+    mdl::Obj tiny; tiny.type = mdl::NODE; tiny.id = 1; tiny.version = 1; tiny.user = "u"; tiny.uid = 1; tiny.changeset = 1; tiny.timestamp = 1000; tiny.x = 10; tiny.y = 20;
+    mdl::Obj big; big.id = 2; big.version = 1; big.user = "u"; big.uid = 1; big.changeset = 1; big.timestamp = 1000;
+    if (kind == 0) { big.type = mdl::WAY; for (size_t k = 0; k < n; ++k) big.nodes.push_back(mdl::NodeRef{static_cast<int64_t>(100 + k), mdl::UNDEF, mdl::UNDEF}); big.tags.push_back(mdl::Tag{"name", std::string(L, 'x')}); }
+    else if (kind == 1) { big.type = mdl::RELATION; tiny.type = mdl::RELATION; tiny.x = tiny.y = mdl::UNDEF; for (size_t k = 0; k < n; ++k) big.members.push_back(mdl::Member{1 + static_cast<int>(k % 3), static_cast<int64_t>(100 + k), "r"}); big.tags.push_back(mdl::Tag{"name", std::string(L, 'x')}); }
+    else { big.type = mdl::NODE; big.x = 30; big.y = 40; for (size_t k = 0; k < n; ++k) big.tags.push_back(mdl::Tag{vh::fmt("%03zu", k % 1000), "vvv"}); big.tags.push_back(mdl::Tag{"name", std::string(L, 'x')}); big.user = std::string(L / 4, 'U'); }
+    if (kind == 0) { tiny.type = mdl::WAY; tiny.x = tiny.y = mdl::UNDEF; tiny.nodes.push_back(mdl::NodeRef{7, mdl::UNDEF, mdl::UNDEF}); }
+    D.push_back(tiny); D.push_back(big);
+    mdl::Obj after = tiny; after.id = 3; D.push_back(after);
+    static const std::string dir = iou::scratch_dir("c03g");
+    const std::string path = dir + "/g";
+    ::unlink(path.c_str());
+    {
+        osmium::io::File file{path, GROW_OPTS[fmt]};
+        osmium::io::Writer writer{file, osmium::io::Header{}, osmium::io::overwrite::allow, *g_pool};
+        osmium::memory::Buffer buf{256 * 1024, osmium::memory::Buffer::auto_grow::yes};
+        for (const auto& o : D) mdl::to_buffer(o, buf);
+        writer(std::move(buf));
+        writer.close();
+    }
+    const std::string bytes = iou::slurp(path);
+    ::unlink(path.c_str());
+    const std::string cls = vh::fmt("valid %s: tiny object, then %s growing to about the buffer capacity (%zu bytes) and a string of %zu bytes", GROW_FMT[fmt], GROW_KINDS[kind].name, cap, L);
+    vh::set_case_desc("grow %s n=%zu", cls.c_str(), n);
+    run_input(bytes, GROW_FMT[fmt], cls);
+    vh::evaluated(); vh::count("distinct_by_construction"); vh::count("buffer_growth_sweep_inputs");
+    vh::cover("growth_sweep", vh::fmt("%s %s cap=%zu", GROW_FMT[fmt], GROW_KINDS[kind].name, cap));
+    if (idx % 500 == 7) vh::sample_str("growth sweep: " + cls + vh::fmt(" (n=%zu, %zu bytes of input)", n, bytes.size()));
+}
+
 // ------------------------------------------------------------------ seeded structure-aware mutations
 
 void mutate_bytes(std::string& s, vh::Rng& rng, int n) {
@@ -557,8 +646,8 @@ int main(int argc, char** argv) {
         return vh::run_cases(argc, argv, g_list.size(), case_file, finish);
     }
     if (mode == "evil" || mode == "count") build_evil();
-    if (mode != "evil") build_seeds(vh::st().seed);
-    if (mode == "count") { std::printf("%" PRIu64 " %" PRIu64 " %zu %zu\n", prefix_cases(), subst_cases(), g_evil.size(), g_seeds.size()); return 0; }
+    if (mode != "evil" && mode != "grow") build_seeds(vh::st().seed);
+    if (mode == "count") { std::printf("%" PRIu64 " %" PRIu64 " %zu %zu %" PRIu64 "\n", prefix_cases(), subst_cases(), g_evil.size(), g_seeds.size(), grow_cases()); return 0; }
     if (mode == "dump") {   // write the seeds as fuzzing corpus: <dir>/<fmt>/seedN
         const std::string dir = vh::arg("dir", "");
         for (size_t i = 0; i < g_seeds.size(); ++i) {
@@ -572,5 +661,6 @@ int main(int argc, char** argv) {
     if (mode == "prefix") return vh::run_cases(argc, argv, prefix_cases(), case_prefix, finish);
     if (mode == "subst") return vh::run_cases(argc, argv, subst_cases(), case_subst, finish);
     if (mode == "smart") return vh::run_cases(argc, argv, 20000, case_smart, finish);
+    if (mode == "grow") return vh::run_cases(argc, argv, grow_cases(), case_grow, finish);
     return vh::run_cases(argc, argv, g_evil.size(), case_evil, finish);
 }
